@@ -3,6 +3,7 @@ import ImmuModel.Tx.Concrete
 import ImmuModel.Tx.ConcreteD
 import ImmuModel.Tx.Scan
 import ImmuModel.Tx.ValueCache
+import ImmuModel.Tx.EntryDigest
 namespace Driver.C09
 open ImmuModel ImmuModel.Tx ImmuModel.Tx.Rec
 
@@ -100,6 +101,16 @@ def step : List String → String
         | .error e => errTokV e
       | none => "bad-op"
     | _, _, _, _, _, _, _ => "bad-op"
+  -- the entry digest function selected by the header version, evaluated on a list of entries
+  -- (refusals included) and the entry-tree root on top: `ok <digest>,…|<Eh>` | error class
+  | ["dg", ver, es] =>
+    match ver.toNat?, (es.splitOn ";").mapM entry? with
+    | some ver, some es =>
+      match digestsOf shaHsD ver es, ehChecked shaHsD ver es with
+      | .ok ds, .ok eh => "ok " ++ ",".intercalate (ds.map hexD) ++ "|" ++ hexD eh
+      | .error e, _ => errTok e
+      | _, .error e => errTok e
+    | _, _ => "bad-op"
   | _ => "bad-op"
 
 end Driver.C09
